@@ -2,15 +2,17 @@
     edges, whatever order `HashSet::drain` yields. Labels are Nat. -/
 namespace Sl
 
-abbrev Edges := Nat → List (Nat × Nat)
-abbrev Pred := Nat → Nat → Nat → Bool        -- p from to label
+variable {L : Type}
 
-inductive Reach (E : Edges) (p : Pred) (v : Nat) : Nat → Prop
+abbrev Edges (L : Type) := Nat → List (L × Nat)
+abbrev Pred (L : Type) := Nat → Nat → L → Bool        -- p from to label
+
+inductive Reach (E : Edges L) (p : Pred L) (v : Nat) : Nat → Prop
   | refl : Reach E p v v
   | step {u a w} : Reach E p v u → (a, w) ∈ E u → p u w a = true → Reach E p v w
 
 /-- inner `for e in edges(x)` : returns (todo', done') -/
-def scanEdges (p : Pred) (x : Nat) : List (Nat × Nat) → List Nat → List Nat → List Nat × List Nat
+def scanEdges (p : Pred L) (x : Nat) : List (L × Nat) → List Nat → List Nat → List Nat × List Nat
   | [], todo, done => (todo, done)
   | (a, t) :: es, todo, done =>
     if t ∈ done then scanEdges p x es todo done
@@ -18,14 +20,14 @@ def scanEdges (p : Pred) (x : Nat) : List (Nat × Nat) → List Nat → List Nat
     else scanEdges p x es todo done
 
 /-- `for v in before` -/
-def scanAll (E : Edges) (p : Pred) : List Nat → List Nat → List Nat → List Nat × List Nat
+def scanAll (E : Edges L) (p : Pred L) : List Nat → List Nat → List Nat → List Nat × List Nat
   | [], todo, done => (todo, done)
   | x :: xs, todo, done =>
     let (todo1, done1) := scanEdges p x (E x) todo (x :: done)
     scanAll E p xs todo1 done1
 
 /-- the outer `loop`; `perm` is the order in which `drain()` hands the elements out -/
-def loop (E : Edges) (p : Pred) (perm : List Nat → List Nat) : Nat → List Nat → List Nat → Option (List Nat)
+def loop (E : Edges L) (p : Pred L) (perm : List Nat → List Nat) : Nat → List Nat → List Nat → Option (List Nat)
   | _, [], done => some done
   | 0, _ :: _, _ => none
   | fuel + 1, todo, done =>
@@ -34,12 +36,12 @@ def loop (E : Edges) (p : Pred) (perm : List Nat → List Nat) : Nat → List Na
 
 /-- invariant: `done ∪ pending ⊆ Reach`, and every vertex of `done` that is not pending has all its accepted
     successors in `done` -/
-structure Inv (E : Edges) (p : Pred) (v : Nat) (pending done : List Nat) : Prop where
+structure Inv (E : Edges L) (p : Pred L) (v : Nat) (pending done : List Nat) : Prop where
   sound : ∀ u, u ∈ done ∨ u ∈ pending → Reach E p v u
   closed : ∀ u ∈ done, u ∉ pending → ∀ a w, (a, w) ∈ E u → p u w a = true → w ∈ done
 
-theorem scanEdges_spec (E : Edges) (p : Pred) (v x : Nat) (hx : Reach E p v x) :
-    ∀ (es : List (Nat × Nat)) (todo done : List Nat), (∀ e ∈ es, e ∈ E x) →
+theorem scanEdges_spec (E : Edges L) (p : Pred L) (v x : Nat) (hx : Reach E p v x) :
+    ∀ (es : List (L × Nat)) (todo done : List Nat), (∀ e ∈ es, e ∈ E x) →
       (∀ u, u ∈ done ∨ u ∈ todo → Reach E p v u) →
       let r := scanEdges p x es todo done
       (∀ u, u ∈ r.2 ∨ u ∈ r.1 → Reach E p v u) ∧
@@ -107,7 +109,7 @@ theorem scanEdges_spec (E : Edges) (p : Pred) (v x : Nat) (hx : Reach E p v x) :
         · exact h5 a' w hm hp'
 
 /-- one whole round: `xs` are the drained vertices still to be processed -/
-theorem scanAll_spec (E : Edges) (p : Pred) (v : Nat) :
+theorem scanAll_spec (E : Edges L) (p : Pred L) (v : Nat) :
     ∀ (xs todo done : List Nat), Inv E p v (xs ++ todo) done → (∀ u ∈ todo, u ∈ done) →
       let r := scanAll E p xs todo done
       Inv E p v r.1 r.2 ∧ (∀ u ∈ r.1, u ∈ r.2) ∧ (∀ u, u ∈ done ∨ u ∈ xs → u ∈ r.2) := by
@@ -173,7 +175,7 @@ theorem scanAll_spec (E : Edges) (p : Pred) (v : Nat) :
       · exact g3 u (Or.inr hu)
 
 /-- the whole loop -/
-theorem loop_spec (E : Edges) (p : Pred) (v : Nat) (perm : List Nat → List Nat)
+theorem loop_spec (E : Edges L) (p : Pred L) (v : Nat) (perm : List Nat → List Nat)
     (hperm : ∀ l x, x ∈ perm l ↔ x ∈ l) :
     ∀ fuel todo done res, Inv E p v todo done → (∀ u ∈ todo, u ∈ done ∨ (u = v ∧ done = [])) →
       loop E p perm fuel todo done = some res → Inv E p v [] res ∧ (∀ u, u ∈ done ∨ u ∈ todo → u ∈ res) := by
@@ -211,7 +213,7 @@ theorem loop_spec (E : Edges) (p : Pred) (v : Nat) (perm : List Nat → List Nat
 
 /-- **C13, closure, in miniature**: whatever the drain order, the result is exactly the set reachable along
     accepted edges. -/
-theorem slice_done_eq_reach (E : Edges) (p : Pred) (v : Nat) (perm : List Nat → List Nat)
+theorem slice_done_eq_reach (E : Edges L) (p : Pred L) (v : Nat) (perm : List Nat → List Nat)
     (hperm : ∀ l x, x ∈ perm l ↔ x ∈ l) (fuel : Nat) (res : List Nat)
     (h : loop E p perm fuel [v] [] = some res) : ∀ u, u ∈ res ↔ Reach E p v u := by
   have h0 : Inv E p v [v] [] := ⟨by intro u hu; simp at hu; subst hu; exact Reach.refl, by simp⟩
